@@ -22,6 +22,7 @@ func checkC13(c *Ctx) {
 	c.Rule("C13/R3", "benchmath.Sample is constructed only by NewSample, which sorts the slice it stores; stats.Sample{Sorted:true} is built only from Sample.Values")
 	c.Rule("C13/R4", "process-wide memo tables are keyed by every input of the memoised call, verbatim")
 	c.Rule("C13/R5", "rendering tables (DESIGN Appendix A4): FormatDelta — P>Alpha '~', equal '0.00%', old=0 '?', else (new/old-1)*100 with %+.2f%%; PctRangeString — infinite end '∞', sign mismatch '?', zero centre '0%', else the larger relative deviation of the interval ends from the centre, in percent")
+	c.Rule("C13/R10", "with several equally frequent values the first is the mode: the exact summary replaces the mode only for a strictly greater count (variables found by name; no claim if renamed)")
 	c.Rule("C13/R9", "the p-value is the test's: every P a Compare method of benchmath stores is the P field of the result of the test it calls, or the constant 1 where that test's error is known non-nil")
 	c.Rule("C13/R8", "the configured significance level reaches the test: NewSample stores the thresholds pointer it was handed, verbatim, on every path")
 	c.Rule("C13/R7", "scale invariance by dimensions: on the way from every Assumption.Compare (benchmath; the tests themselves live in the external go-moremath module) no quantity that carries the unit of the measurements (a value, mean, deviation, variance, quantile, or a product/quotient of them that does not cancel) is compared with a non-zero constant")
@@ -37,6 +38,7 @@ func checkC13(c *Ctx) {
 	c13Scale(c, p)
 	c13Thresholds(c, p, "C13/R8")
 	c13PFromTest(c, p)
+	c13FirstModeWins(c, p, "C13/R10")
 	if c.Tier == "thorough" {
 		p2 := mustLoad(c, loadOpts{}, "./...")
 		var rels []string
